@@ -223,7 +223,9 @@ BIN_FORMS = ['({x} * {y})', '({x} | {y})', '({x} ^ {y})', '({x} & {y})', '({x} >
              '{x}.rc({y})', '{x}.cp({y})', '{x}.acp({y})', '{x}.add({y})', '{x}.sub({y})']
 UN_FORMS = ['{x}', '(~{x})', '(-{x})', '{x}.reverse()', '{x}.involute()', '{x}.conjugate()', '{x}.normsq()', '{x}.dual()', '{x}.undual()',
             '{x}.grade(1)', '{x}.grade(0, 2)', '{x}.grade((1, 2))', '(2 * {x})', '({x} * 3)', '({x} + 2)', '(2 + {x})', '({x} - 2)', '(2 - {x})',
-            '({x} / 2)', '({x} ** 2)', '({x} ** 3)', '({x} ** 0)', '{x}.hodge()', '{x}.unhodge()']
+            '({x} / 2)', '({x} ** 2)', '({x} ** 3)', '({x} ** 0)', '{x}.hodge()', '{x}.unhodge()',
+            '({x} / Q23)', '({x} * Q23)', '(Q23 * {x})', '({x} / 2.5)', '({x} * -3)', '({x} / -4)', '(-2 * {x})']
+Q23 = F(2, 3)          # a number whose text is not a single literal (division by it must not be spliced into an expression unparenthesised)
 PARTIAL_FORMS = ['{x}.inv()', '({x} ** -1)', '({x} ** -2)', '({x} / {y})', '{x}.div({y})', '{x}.norm()', '{x}.normalized()',
                  '({x}.normsq()).sqrt()', '({x}.e1 * {y})', '({x}.e12 + {y})', '({y} * {x}.e21)', '({x}.e * {y})', '{x}.polarity()', '{x}.unpolarity()']
 
